@@ -119,7 +119,12 @@ def ob_parse_render(name, tindex, positions):
             if base.name.startswith("bcrypt") or "bcrypt" in name:
                 # padding-bit repair of the last salt / digest character is documented
                 claim = z3.Or(claim, z3.BoolVal(isinstance(out, (str, SStr)) and len(out) == len(m)) if pos in _bcrypt_pad_positions(t) else claim)
-            if isinstance(out, (str, SStr)) and len(out) == len(m) and (pos + 1 == len(t) or t[pos + 1] in "$,|}" or t[pos] == "=") \
+            if isinstance(out, (str, SStr)) and len(out) == len(m) and pos > 0 and p.result[3] is not None:
+                # the substituted character is itself a '=': the symbol in front of it becomes the field's last one
+                o = SStr.lift(out)
+                same = z3.And(*[_veq(a, b) for a, b in p.result[3]])
+                claim = z3.Or(claim, z3.And(ch == ord("="), same, _eq(SStr(o.c[:pos - 1]), SStr(m.c[:pos - 1])), _eq(SStr(o.c[pos:]), SStr(m.c[pos:]))))
+            if isinstance(out, (str, SStr)) and len(out) == len(m) and (pos + 1 == len(t) or t[pos + 1] in "$,|}=" or t[pos] == "=") \
                     and p.result[3] is not None:
                 # documented padding-bit repair: the last symbol of an unpadded base64 field may be canonicalised.  Only
                 # salt/digest fields are base64: every other setting must have been read as in the unmodified string
@@ -634,7 +639,7 @@ def run(tier, seed, t0, only=None):
                 "sha1_crypt", "ldap_salted_sha1", "mssql2005", "django_pbkdf2_sha256", "sun_md5_crypt", "fshp", "cisco_type7", "mysql41",
                 "bcrypt_sha256", "lmhash", "oracle11", "ldap_md5_crypt", "cta_pbkdf2_sha1", "dlitz_pbkdf2_sha1", "apr_md5_crypt",
                 "ldap_sha512_crypt", "bigcrypt", "crypt16", "django_salted_sha1"]
-        sel = [n for n in names if n in core]
+        sel = names          # since table look-ups are decided as multiplexers every hasher fits into the quick tier
     else:
         sel = names
     obs = []
